@@ -354,74 +354,42 @@ class Shape(Coordinate):
 
         angle_rad = np.pi * angle / 180.
 
-        # Which point we get if we walk a distance of cell radius in the
-        # desired angle direction?
-        point = cast(complex, self.pos + self._radius * np.exp(angle_rad * 1j))
+        direction = np.exp(1j * angle_rad)
 
-        # Calculates the distance of this point to all vertices and finds
-        # the closest vertices
-        dists = np.abs(self.vertices - point)
-        # Get the two closest vertices from point
-        closest_vertices = self.vertices[np.argsort(dists)[:2]]
+        # Vertices relative to the shape's center. Edge number 'k' goes
+        # from rel_vertices[k] to next_vertices[k].
+        rel_vertices = self.vertices - self.pos
+        next_vertices = np.roll(rel_vertices, -1)
 
-        # The equation of a straight line is given by "y = ax + b". We have
-        # two points in this line (the two closest vertices) and we can use
-        # them to find 'a' and 'b'. First let's find the different of these
-        # two closest vertexes
-        diff = closest_vertices[0] - closest_vertices[1]
+        # The cross product of each vertex with the direction tells in
+        # which side of the line (through the center) with the desired
+        # angle that vertex is. That line crosses an edge when the two
+        # vertices of that edge are in different sides.
+        side = (np.conj(rel_vertices) * direction).imag
+        next_side = np.roll(side, -1)
+        crossed = (((side >= 0) & (next_side <= 0)) |
+                   ((side <= 0) & (next_side >= 0))) & (side != next_side)
 
-        # xxxxx Special case for a vertical line xxxxxxxxxxxxxxxxxxxxxxxxxx
-        # noinspection PyTypeChecker
-        if np.allclose(diff.real, 0.0, atol=1e-15):
-            # If the the real part of diff is equal to zero, that means
-            # that the straight line is actually a vertical
-            # line. Therefore, all we need to do to get the border point is
-            # to start from the shape's center and go with the desired
-            # angle until the value in the 'x' axis is equivalent to
-            # closest_vertices[0].real.
-            adjacent_side = closest_vertices[0].real - self.pos.real
-            side = np.tan(angle_rad) * adjacent_side
-            point = self.pos + adjacent_side + 1j * side
-            # Now all that is left to do is apply the ratio, which only
-            # means that the returned point is a linear combination between
-            # the shape's central position and the point at the border of
-            # the shape
+        # For the edges that are crossed, the crossing point is at
+        # "center + step * direction". A negative step means that the edge
+        # is crossed in the opposite direction.
+        steps = ((np.conj(rel_vertices[crossed]) *
+                  next_vertices[crossed]).imag /
+                 (side[crossed] - next_side[crossed]))
+        steps = steps[steps > 0]
+        if steps.size == 0:
+            raise ValueError(
+                "There is no border point in the direction of the angle "
+                "{0}".format(angle))
 
-            return (1 - ratio) * self.pos + ratio * point
-        # xxxxxxxxxxxxxxxxxxxxxxxxxxxxxxxxxxxxxxxxxxxxxxxxxxxxxxxxxxxxxxxxx
-
-        # Calculates the 'a' and 'b' in the line equation "y=ax+b"
-        a = diff.imag / diff.real
-        b = closest_vertices[1].imag - a * closest_vertices[1].real
-
-        # Note that is we start from self.pos and walk in the direction
-        # pointed by the angle by "some step" we should reach the line
-        # where the two closest vertexes are. If we can find this "step"
-        # then we will get our desired point.
-        # That is, for the step "z" we have
-        #    self.pos + np.exp(1j * angle_rad) * z = complex(x, a * x + b)
-        # Which we can write as the system of equations
-        #    self.pos.real + np.exp(1j * angle).real * z = x
-        #    self.pos.imag + np.exp(1j * angle).imag * z = a * x + b
-        # Lets create some aliases for the constants so that
-        #     A + B * z = x
-        #     C + D * z = a * x + b
-        A = self.pos.real
-        B = np.exp(1j * angle_rad).real
-        C = self.pos.imag
-        D = np.exp(1j * angle_rad).imag
-        # Through some algebraic manipulation the correct step "z" is given
-        # by
-        z = (A * a + b - C) / (D - (a * B))
-
-        # Now we can finally find the desired point at the border of the
-        # shape
-        point = self.pos + np.exp(1j * angle_rad) * z
+        # The border point is the first crossing we find when we start
+        # from the shape's center and walk in the desired direction
+        point = self.pos + np.min(steps) * direction
 
         # Now all that is left to do is apply the ratio, which only means
         # that the returned point is a linear combination between the
         # shape's central position and the point at the border of the shape
-        return (1 - ratio) * self.pos + ratio * point
+        return cast(complex, (1 - ratio) * self.pos + ratio * point)
 
     # noinspection PyShadowingNames,PyShadowingNames
     def plot(self, ax: Any = None) -> None:  # pragma: no cover
